@@ -669,6 +669,28 @@ func traceField(v ssa.Value, path []int, depth int) (ssa.Value, bool) {
 	}
 	v = stripIface(v)
 	switch x := v.(type) {
+	case *ssa.Extract:
+		// one result of a helper with a single return: `quotient, remainder := p.mulAddWitness(a, b, c)`
+		if c, ok := x.Tuple.(*ssa.Call); ok {
+			if g := c.Call.StaticCallee(); g != nil && g.Blocks != nil {
+				var ret *ssa.Return
+				for _, b := range g.Blocks {
+					if r, ok := b.Instrs[len(b.Instrs)-1].(*ssa.Return); ok {
+						if ret != nil {
+							return nil, false
+						}
+						ret = r
+					}
+				}
+				if ret != nil && x.Index < len(ret.Results) {
+					if len(path) == 0 {
+						return ret.Results[x.Index], true
+					}
+					return traceField(ret.Results[x.Index], path, depth+1)
+				}
+			}
+		}
+		return nil, false
 	case *ssa.Field:
 		return traceField(x.X, append([]int{x.Field}, path...), depth+1)
 	case *ssa.UnOp:
